@@ -125,6 +125,15 @@ with open(os.path.join(VERIF, "properties.jsonl")) as f:
             p = json.loads(line)
             TITLES[p["id"]] = p["title"]
 
+CHECKS["C19"] = dict(
+    cat="exploration", engine="repairmon+refcodec", design="3/C19",
+    technique="runtime monitoring: model/independent-decoder oracle over generated histories followed by metadata loss, ldb_repair and ldb_open (+ASan/UBSan pass)",
+    text="Histories that make file numbering contradict data age are closed, their MANIFEST/CURRENT lost or damaged in 7 "
+         "ways (optionally one data file too), repaired and reopened; every key's lookup, both scan directions, follow-up "
+         "writes, a reopen and the file/sequence counters are checked against the newest-by-sequence contents decoded "
+         "independently from the surviving files.",
+    note="Expectation computed by harness/refcodec.c; same options passed to ldb_repair as at creation.")
+
 NOT_YET = "check under construction in this session (see DESIGN.md section 3); not claimed until its monitor is committed"
 
 
